@@ -18,7 +18,9 @@ NOTE = ("sequentially consistent atomics only (the scheduler serialises tasks); 
 ENGINES = {
  "queue": ("engines/queue.cc", "real CircularBuffer/AtomicUniquePtr/SpinLockMutex headers over scheduler-controlled std::atomic; spurious weak-CAS failures, task stalls"),
  "batch": ("engines/batch.cc", "real batch/simple/multi span+log processors, providers and PeriodicExportingMetricReader with stub exporters (fail/slow/stall fault plan), simulated clock and timers"),
- "trace": ("engines/trace.cc", "real TracerProvider/Tracer/Span/SpanData/samplers/id generator/runtime context with harness recordables and scripted samplers"),
+ "span": ("engines/span.cc", "real TracerProvider/Tracer/Span/SpanData/multi+simple+batch span processors with harness recordables that yield inside Span's critical section; caller buffers overwritten and freed after every call"),
+ "ident": ("engines/ident.cc", "real Tracer::StartSpan/Span/samplers/random id generator/runtime context with scripted sampler, sequential id generator and capturing exporter"),
+ "ctx": ("engines/ctx.cc", "real Context/RuntimeContext/Scope (header-only API) driven from 2-3 simulated tasks sharing a family of contexts; lock-step stack and persistent-map models"),
  "logs": ("engines/logs.cc", "real LoggerProvider/Logger/ReadWriteLogRecord/multi+simple+batch log processors with active spans per task and caller-buffer release"),
  "metrics": ("engines/metrics.cc", "real MeterProvider/Meter/sync+async storages/aggregations/views with pull-reader stubs and real periodic reader, clock strata"),
 }
@@ -27,9 +29,9 @@ CHECKS = {
  "C01": ("batch", "seeded search over producer/worker/flush/shutdown interleavings, knob space and exporter fault plans on the real batch span/log processors (directly and through providers); exactly-once, per-producer order, drop legitimacy (exact in the phase-structured stratum), nothing exported that was produced after shutdown, producers never blocked by a stalled exporter", "DESIGN.md section 4 (C01)"),
  "C02": ("batch", "seeded search over concurrent flushers, shutdown callers, timeouts and exporter faults on batch processors, providers and the periodic reader; 'returned true => everything before is exported and the exporter was flushed', shutdown once and final, promptness after shutdown, bounded liveness (deadlock / point-budget detection)", "DESIGN.md section 4 (C02)"),
  "C03": ("batch", "in-flight Export counter checked at every Export entry of stub exporters that yield and sleep simulated time inside Export (simple processors from several tasks, batch worker vs ForceFlush/Shutdown, periodic reader vs ForceFlush); every batch of a batch processor within 1..max_export_batch_size including after earlier ForceFlush calls", "DESIGN.md section 4 (C03)"),
- "C04": ("trace", "seeded search over span operation sequences issued by 1-2 tasks per span racing End, 1-3 processors of mixed kind, deferred export after caller buffers were overwritten and freed; exported SpanData compared with a reference model, once per processor", "DESIGN.md section 4 (C04)"),
- "C05": ("trace", "seeded search over span trees on 1-3 tasks mixing the three parenting mechanisms, remote/local parents, samplers and id generators; identity/flag/trace-state model, uniqueness of ids across tasks, cross-task isolation of active spans", "DESIGN.md section 4 (C05)"),
- "C10": ("trace", "seeded search over SetValue/GetValue/Attach/Detach/Scope programs on 2-3 tasks sharing a family of contexts; per-task stack model and persistent-context model", "DESIGN.md section 4 (C10)"),
+ "C04": ("span", "seeded search over span operation sequences issued by 1-2 tasks per span racing End, 1-3 processors of mixed kind, deferred export after caller buffers were overwritten and freed; exported SpanData compared with a reference model, once per processor", "DESIGN.md section 4 (C04)"),
+ "C05": ("ident", "seeded search over span trees on 1-3 tasks mixing the three parenting mechanisms, remote/local parents, samplers and id generators; identity/flag/trace-state model, uniqueness of ids across tasks, cross-task isolation of active spans", "DESIGN.md section 4 (C05)"),
+ "C10": ("ctx", "seeded search over SetValue/GetValue/Attach/Detach/Scope programs on 2-3 tasks sharing a family of contexts; per-task stack model and persistent-context model", "DESIGN.md section 4 (C10)"),
  "C13": ("logs", "seeded search over emit programs on 1-3 tasks with their own active-span stacks through simple/batch/multi processors with caller buffers overwritten/freed after Emit; record model, correlation model, once per processor", "DESIGN.md section 4 (C13)"),
  "C06": ("metrics", "seeded search over recorder tasks racing collector tasks for 1-3 readers of mixed temporality; base-4 coded measurements make exactly-once per reader decidable; abutting delta intervals under a non-repeating system clock", "DESIGN.md section 4 (C06)"),
  "C07": ("metrics", "histogram values split over collection cycles/readers while recording; one-shot histogram model, lossless merge", "DESIGN.md section 4 (C07)"),
